@@ -214,6 +214,11 @@ func oracle(pl *plan, w *relaysim.World, looks []lookup, accepted map[int]bool, 
 		}
 		probe(d, ref, out)
 		for _, df := range relaysim.Diff(ref, l.got) {
+			if legacy != "" && df.Class == "relay-gas-limit" && df.GotGas != w.FallbackGas {
+				// the recorded finding is "the fallback gas limit instead of default_config's": any other
+				// wrong value is something else
+				df.Class = "relay-gas-limit-neither-fallback-nor-default"
+			}
 			report(Viol("C10/"+legacy+df.Class, "validator %s (#%d) doc %d matched entry %d: %s ; vouch: %s ; document: %s",
 				l.val.Name, l.val.N, l.doc, ref.Entry, df.Detail, relaysim.Canon(l.got, nil), string(w.Source.Body(stateOf(w, d)))))
 		}
